@@ -13,7 +13,7 @@ EXTENDS Integers, Sequences, Rational
 MaxRaw == 65535
 Modes == {"logical", "raw", "rgb"}
 
-Clamp(q, lo, hi) == IF Lt(q, I(lo)) THEN I(lo) ELSE IF Lt(I(hi), q) THEN I(hi) ELSE q
+Clamp(q, lo, hi) == ClampQ(q, lo, hi)
 
 HueRaw(deg) == Mul(Mod(deg, I(360)), <<4369, 24>>)           \* 65535/360 = 4369/24
 PctRaw(pct) == Mul(pct, <<13107, 20>>)                        \* 65535/100 = 13107/20
